@@ -304,3 +304,46 @@ Proof.
     + rewrite <- A. apply I3.
     + rewrite app_length. cbn [List.length]. lia.
 Qed.
+
+(** ---------------- the regenerated breaker over every history ---------------- *)
+(** the same run with the automaton regenerated from retry.go (int64 arithmetic written out) *)
+Fixpoint cb_run_gen (cb : breaker) (calls : list (Z * bool)) : list cbresult * breaker :=
+  match calls with
+  | [] => ([], cb)
+  | (t, ff) :: rest =>
+      let rs := cb_run_gen (snd (cb_call cb t ff)) rest in
+      (fst (cb_call cb t ff) :: fst rs, snd rs)
+  end.
+
+Definition two62 : Z := 4611686018427387904.
+
+Lemma cb_spec_step_bounds : forall cb t ff,
+  0 <= cb_fail cb -> 0 <= cb_last cb < two62 -> 0 <= t < two62 ->
+  let cb' := snd (cb_spec_step cb t ff) in
+  0 <= cb_fail cb' <= cb_fail cb + 1 /\ 0 <= cb_last cb' < two62.
+Proof.
+  intros [thr cd st f last] t ff Hf Hl Ht. unfold cb_spec_step.
+  cbn [cb_threshold cb_cooldown cb_st cb_fail cb_last] in *.
+  destruct (cbstate_eqb st CBOpen && (t - last <? cd))%bool; [cbn; lia|].
+  destruct ff; cbn; lia.
+Qed.
+
+(** For every history whose call times are clock readings in [0, 2^62) ns (146 years) and whose
+    length stays below 2^63 - 1, the regenerated automaton and the reference automaton produce the
+    same results and the same final breaker: the history theorems hold of the regenerated code. *)
+Lemma cb_run_gen_spec : forall calls cb,
+  0 <= cb_fail cb -> cb_fail cb + Z.of_nat (List.length calls) < two63 - 1 ->
+  0 <= cb_last cb < two62 ->
+  Forall (fun c => 0 <= fst c < two62) calls ->
+  cb_run_gen cb calls = cb_run cb calls.
+Proof.
+  induction calls as [|[t ff] rest IH]; intros cb Hf Hlen Hl Hall; [reflexivity|].
+  cbn [cb_run_gen cb_run]. cbn [List.length] in Hlen.
+  inversion Hall as [|x xs Ht Hrest]; subst. cbn [fst] in Ht.
+  assert (W : cb_wf cb t).
+  { unfold cb_wf, in_int64, two62, two63 in *. lia. }
+  rewrite (cb_call_spec cb t ff W).
+  destruct (cb_spec_step_bounds cb t ff Hf Hl Ht) as (B1 & B2).
+  rewrite (IH (snd (cb_spec_step cb t ff))); try assumption; try lia.
+  reflexivity.
+Qed.
